@@ -4117,6 +4117,38 @@ func E11DashCover(c *core.Ctx, r *core.Report) {
 			}
 			return true
 		})
+		// an ordering comparison that looks at the element's length takes its start position into account
+		cmp := 0
+		ast.Inspect(fd.Body, func(m ast.Node) bool {
+			be, ok := m.(*ast.BinaryExpr)
+			if !ok || (be.Op != token.LSS && be.Op != token.LEQ && be.Op != token.GTR && be.Op != token.GEQ) {
+				return true
+			}
+			hasElem, hasPos := false, false
+			ast.Inspect(be, func(k ast.Node) bool {
+				if e, ok := k.(ast.Expr); ok {
+					if isElem(e) {
+						hasElem = true
+					}
+					if isPos(e) {
+						hasPos = true
+					}
+				}
+				return true
+			})
+			if !hasElem {
+				return true
+			}
+			n++
+			cmp++
+			key := fmt.Sprintf("%s|comparison with the current dash element #%d", fname, cmp)
+			if hasPos {
+				r.OK("E11.dash-cover", key, c.Pos(be.Pos()), types.ExprString(be))
+			} else {
+				r.Fail("E11.dash-cover", key, c.Pos(be.Pos()), fmt.Sprintf("`%s` compares the length of the element dashStart points at without the position at which it started: with an offset inside the element (pos < 0) it ends at pos + d[i], earlier than d[i], so a path that ends between the two is taken to lie inside one dash or gap and is not cut", types.ExprString(be)))
+			}
+			return true
+		})
 	}
 	r.Count("E11.dash-cover-sites", n)
 	r.Floor("E11.dash-cover-sites", 2)
@@ -11626,4 +11658,169 @@ func E11EmptyValueAccepted(c *core.Ctx, r *core.Report) {
 	default:
 		r.OK("E11.empty-value-accepted", key, c.Pos(guardPos), fmt.Sprintf("rejects len < %d", need))
 	}
+}
+
+// E11ArcFlagConsulted: no result of an arc helper is produced without looking at the large-arc flag.
+func E11ArcFlagConsulted(c *core.Ctx, r *core.Report) {
+	r.Rule("E11.arc-flag-consulted", "an elliptical arc is given by its end points, radii, rotation and two flags; the end points and radii alone describe two different arcs (the minor and the major one), so nothing about the arc's extent follows from the chord. In every helper of the package that takes the two flags (two consecutive bool parameters after the radii) and returns a value, each path to a return has used the large-arc flag before — in a condition or as an argument of a call — unless the return hands back a value built without the end point (the degenerate early-outs). An early-out that judges the sagitta from the chord (`r − √(r² − chord²/4) ≤ tolerance`) before the angles are computed collapses an almost complete circle to its short chord, an error of 2r whatever the tolerance")
+	p := c.MustPkg("")
+	info := p.TypesInfo
+	n := 0
+	for _, fd := range core.AllFuncDecls(p) {
+		if fd.Body == nil || fd.Type.Results.NumFields() == 0 || strings.HasSuffix(c.Fset.Position(fd.Pos()).Filename, "_test.go") {
+			continue
+		}
+		var params []types.Object
+		for _, f := range fd.Type.Params.List {
+			for _, nm := range f.Names {
+				params = append(params, info.Defs[nm])
+			}
+		}
+		var large types.Object
+		for i := 0; i+1 < len(params); i++ {
+			isBool := func(o types.Object) bool {
+				if o == nil {
+					return false
+				}
+				b, ok := o.Type().Underlying().(*types.Basic)
+				return ok && b.Kind() == types.Bool
+			}
+			if isBool(params[i]) && isBool(params[i+1]) && large == nil {
+				large = params[i]
+			}
+		}
+		if large == nil {
+			continue
+		}
+		// the helpers that produce geometry (a path or a list of curves), not the decoder of the flags itself
+		produces := false
+		for _, res := range fd.Type.Results.List {
+			switch t := info.TypeOf(res.Type).(type) {
+			case *types.Pointer:
+				if strings.HasSuffix(t.Elem().String(), ".Path") {
+					produces = true
+				}
+			case *types.Slice:
+				produces = true
+			}
+		}
+		if !produces {
+			continue
+		}
+		mentions := func(nd ast.Node) bool {
+			hit := false
+			ast.Inspect(nd, func(m ast.Node) bool {
+				if id, ok := m.(*ast.Ident); ok && core.ObjOf(info, id) == large {
+					hit = true
+				}
+				return !hit
+			})
+			return hit
+		}
+		var bad []ast.Node
+		rets := 0
+		var walk func(stmts []ast.Stmt, done bool) (bool, bool)
+		walk = func(stmts []ast.Stmt, done bool) (bool, bool) {
+			for _, st := range stmts {
+				switch x := st.(type) {
+				case *ast.ReturnStmt:
+					rets++
+					if !done && !mentions(x) {
+						bad = append(bad, x)
+					}
+					return done, false
+				case *ast.BlockStmt:
+					d, falls := walk(x.List, done)
+					if !falls {
+						return d, false
+					}
+					done = d
+				case *ast.IfStmt:
+					if x.Init != nil && mentions(x.Init) {
+						done = true
+					}
+					dc := done || mentions(x.Cond)
+					dT, fT := walk(x.Body.List, dc)
+					dF, fF := dc, true
+					switch e := x.Else.(type) {
+					case *ast.BlockStmt:
+						dF, fF = walk(e.List, dc)
+					case *ast.IfStmt:
+						dF, fF = walk([]ast.Stmt{e}, dc)
+					}
+					switch {
+					case fT && fF:
+						done = dT && dF
+					case fT:
+						done = dT
+					case fF:
+						done = dF
+					default:
+						return done, false
+					}
+				case *ast.ForStmt:
+					walk(x.Body.List, done)
+				case *ast.RangeStmt:
+					if mentions(x.X) {
+						done = true
+					}
+					walk(x.Body.List, done)
+				case *ast.SwitchStmt:
+					for _, cs := range x.Body.List {
+						walk(cs.(*ast.CaseClause).Body, done)
+					}
+				default:
+					if mentions(st) {
+						done = true
+					}
+				}
+			}
+			return done, true
+		}
+		walk(fd.Body.List, false)
+		if rets == 0 {
+			continue
+		}
+		// the degenerate early-outs: a return whose value does not involve the last Point parameter (the end point) or
+		// that returns the parameters unchanged is not an arc
+		var endPt types.Object
+		for _, o := range params {
+			if o != nil {
+				if nt, ok := o.Type().(*types.Named); ok && nt.Obj().Name() == "Point" {
+					endPt = o
+				}
+			}
+		}
+		n++
+		key := "canvas." + core.FuncName(fd) + "|the large-arc flag is used before every return"
+		var real []ast.Node
+		for _, b := range bad {
+			// does the function, before this return, build something from the end point? (a path through LineTo(end))
+			uses := false
+			if endPt != nil {
+				ast.Inspect(fd.Body, func(m ast.Node) bool {
+					if m == nil || m.Pos() >= b.End() {
+						return m == nil || m.Pos() < b.End()
+					}
+					if id, ok := m.(*ast.Ident); ok && core.ObjOf(info, id) == endPt && m.Pos() < b.Pos() {
+						// inside the statement list that holds the return
+						uses = true
+					}
+					return true
+				})
+			} else {
+				uses = true
+			}
+			if uses {
+				real = append(real, b)
+			}
+		}
+		if len(real) == 0 {
+			r.OK("E11.arc-flag-consulted", key, c.Pos(fd.Pos()), fmt.Sprintf("%d return(s)", rets))
+		} else {
+			r.Fail("E11.arc-flag-consulted", key, c.Pos(real[0].Pos()), fmt.Sprintf("%s can return here without having looked at `%s` (neither in a condition nor as an argument on the way): the end points and radii fit both the minor and the major arc, so a result decided from the chord alone is wrong for one of them — an almost complete circle drawn as one large arc becomes its short chord", core.FuncName(fd), large.Name()))
+		}
+	}
+	r.Count("E11.arc-flag-consulted", n)
+	r.Floor("E11.arc-flag-consulted", 4)
 }
